@@ -7,6 +7,9 @@
 (*                                                       of the transport) *)
 (*   "rxdisc"    the client's DISCONNECT packet for "/" server.py 561-570  *)
 (*   "lost"      loss of the transport                  server.py 668-674  *)
+(*   "emit_cb"   (asyncio model only) emit(to = c1, callback = ...) racing  *)
+(*               the terminations: AsyncManager.emit registers the callback *)
+(*               id, then suspends in the send      async_manager.py 51-63  *)
 (* and its program counter names the NEXT access it makes to the client    *)
 (* manager / the transport layer / the application handler - pre-emption   *)
 (* happens exactly there (the granularity the property names).             *)
@@ -42,6 +45,7 @@ InitSt ==
       environ |-> TRUE,                                          \* server.environ has the transport
       sent    |-> 0,                                             \* DISCONNECT packets sent to t1
       open    |-> TRUE,                                          \* t1's engine.io socket is not closed yet
+      cb      |-> 0,                                             \* callbacks (and their id counter) the manager holds for c1
       th      |-> [i \in Threads |-> InitThread(Ops[i])] ]
 
 NsAlive(s, ns) == IF ns = "/" THEN s.member.c1 \/ s.member.cB ELSE s.member.cA
@@ -64,7 +68,8 @@ PreDisconnect(s, i, x, next) ==
 (* basic_disconnect (base_manager.py 86-102) *)
 BasicDisconnect(s, x) ==
     IF ~NsAlive(s, NsOfSid(x)) THEN s
-    ELSE [s EXCEPT !.member[x] = FALSE, !.pending[x] = IF @ > 0 THEN @ - 1 ELSE 0]
+    ELSE [s EXCEPT !.member[x] = FALSE, !.pending[x] = IF @ > 0 THEN @ - 1 ELSE 0,
+                   !.cb = IF x = "c1" THEN 0 ELSE @]
 
 (* what follows the end of one namespace's termination *)
 AfterOne(s, i) ==
@@ -80,7 +85,14 @@ Step(s, i) ==
             (CASE t.op = "api"       -> [s EXCEPT !.th[i].pc = "m.can_disconnect", !.th[i].sid = "c1", !.th[i].ns = "/"]
                [] t.op = "api_other" -> [s EXCEPT !.th[i].pc = "m.can_disconnect", !.th[i].sid = "cA", !.th[i].ns = "/a"]
                [] t.op = "rxdisc"    -> [s EXCEPT !.th[i].pc = "m.sid_from_eio_sid", !.th[i].ns = "/"]
-               [] t.op = "lost"      -> Goto(s, i, "m.get_namespaces"))
+               [] t.op = "lost"      -> Goto(s, i, "m.get_namespaces")
+               [] t.op = "emit_cb"   -> Goto(s, i, "m.participants"))
+      [] t.pc = "m.participants" ->       \* get_participants("/", <c1's personal room>)
+            (IF s.member.c1 THEN Goto(s, i, "m.gen_ack") ELSE Done(s, i, "ok"))
+      [] t.pc = "m.gen_ack" ->            \* _generate_ack_id: the callback is registered ...
+            [s EXCEPT !.cb = @ + 1, !.th[i].pc = "eio.send_ev"]
+      [] t.pc = "eio.send_ev" ->          \* ... and the EVENT goes out (a closed transport drops it)
+            Done(s, i, "ok")
       [] t.pc = "m.get_namespaces" ->       \* snapshot of the manager's namespaces, in its dict order
             (LET nss == (IF NsAlive(s, "/") THEN <<"/">> ELSE <<>>) \o (IF NsAlive(s, "/a") THEN <<"/a">> ELSE <<>>)
              IN  IF nss = <<>> THEN Goto(s, i, "environ.has")
@@ -150,5 +162,8 @@ C20_CleanAfterwards ==
     (gh.dev = {} /\ AllDone) =>
         /\ \A x \in {"c1", "cA"} : Terminated(x) => ~st.member[x] /\ st.pending[x] = 0
         /\ ((\E i \in Threads : Ops[i] = "lost") => ~st.environ)
+(* C11 / C06 under asyncio schedules: whatever the order of an emit with a  *)
+(* callback and the terminations, nothing is kept for a client that is gone *)
+C11_NoCallbackResidue == (AllDone /\ ~st.member.c1) => st.cb = 0
 D7_NotTaken == gh.dev = {}
 =============================================================================
